@@ -17,7 +17,7 @@ from pydiverse.transform._internal.errors import NotSupportedError
 from pydiverse.transform._internal.ops import ops
 from pydiverse.transform._internal.ops.op import Ftype
 from pydiverse.transform._internal.tree.ast import AstNode
-from pydiverse.transform._internal.tree.col_expr import Col, ColFn, LiteralCol
+from pydiverse.transform._internal.tree.col_expr import Col, ColExpr, ColFn, LiteralCol
 from pydiverse.transform._internal.tree.types import Dtype
 
 try:
@@ -148,15 +148,31 @@ class TableImpl(AstNode):
             ) from err
 
 
-def split_join_cond(on: ColFn) -> list[ColFn]:
+def split_join_cond(on: ColExpr) -> list[ColExpr]:
     if isinstance(on, LiteralCol):
         return []
+    elif not isinstance(on, ColFn):
+        return [on]
     elif on.op == ops.bool_and:
         return split_join_cond(on.args[0]) + split_join_cond(on.args[1])
     elif on.op == ops.horizontal_all:
         return functools.reduce(operator.add, (split_join_cond(arg) for arg in on.args))
     else:
         return [on]
+
+
+# Whether `pred` can be used as a key pair of an equi join: an equality whose two sides are
+# computed from different tables (one of them may be a constant). Everything else (a boolean
+# column, a case expression, an equality within one table) is a general predicate.
+def is_equi_join_pred(pred: ColExpr, left_uuids: set[UUID], right_uuids: set[UUID]) -> bool:
+    if not (isinstance(pred, ColFn) and pred.op == ops.equal):
+        return False
+    sides = []
+    for arg in pred.args:
+        uuids = {e._uuid for e in arg.iter_subtree_postorder() if isinstance(e, Col)}
+        sides.append((uuids <= left_uuids, uuids <= right_uuids, len(uuids) == 0))
+    (l0, r0, c0), (l1, r1, c1) = sides
+    return not (c0 and c1) and ((l0 and r1) or (r0 and l1))
 
 
 # Returns the left and right columns of a list of equality predicates.
@@ -170,10 +186,13 @@ def get_left_right_on(
         right_on.append(pred.args[1])
 
         must_swap_cols = None
-        for e in pred.args[0].iter_subtree_postorder():
-            if isinstance(e, Col):
-                must_swap_cols = e._uuid in right_uuids
-                assert must_swap_cols or e._uuid in left_uuids
+        for arg, swap_if_right in ((pred.args[0], True), (pred.args[1], False)):
+            for e in arg.iter_subtree_postorder():
+                if isinstance(e, Col):
+                    must_swap_cols = (e._uuid in right_uuids) == swap_if_right
+                    assert e._uuid in right_uuids or e._uuid in left_uuids
+                    break
+            if must_swap_cols is not None:
                 break
 
         assert must_swap_cols is not None
